@@ -17,6 +17,8 @@ try:
     patch = os.path.join(V, "seeded", tag, "patch.diff")
     if not os.path.exists(patch):
         patch = os.path.join(V, "selftest", "mutants", tag + ".patch")
+    if not os.path.exists(patch):
+        patch = os.path.join(V, "selftest", "benign", tag + ".patch")
     subprocess.check_call(["git", "-C", wt, "apply", patch])
     env = dict(os.environ, OWLCHESS_REPO=wt)
     fired = []
@@ -33,7 +35,9 @@ try:
     print("FIRED:", fired)
     if "--record" in sys.argv:
         mp = os.path.join(V, "seeded", tag, "meta.json")
-        m = json.load(open(mp)) if os.path.exists(mp) else {}
+        if not os.path.exists(mp):
+            raise SystemExit(0)
+        m = json.load(open(mp))
         m["detected_by"] = sorted(set(m.get("detected_by", [])) | set(fired))
         json.dump(m, open(mp, "w"), indent=1)
 finally:
